@@ -1,6 +1,7 @@
 package vc
 
 import (
+	"go/ast"
 	"time"
 	"sync"
 	"fmt"
@@ -74,6 +75,15 @@ func Load(dir string, patterns ...string) (*Prog, error) {
 			continue
 		}
 		p.Funcs[FuncName(fn)] = fn
+		for _, b := range fn.Blocks {
+			for _, in := range b.Instrs {
+				if dr, ok := in.(*ssa.DebugRef); ok && !dr.IsAddr {
+					if id, ok := dr.Expr.(*ast.Ident); ok {
+						valNames.LoadOrStore(dr.X, id.Name)
+					}
+				}
+			}
+		}
 	}
 	t1 := time.Now()
 	if os.Getenv("SLIPVC_TIMING") != "" {
